@@ -27,6 +27,11 @@ MAXP = TS.MAX_PRECISION
 # worst seen on the unchanged tree: see evidence counters max_margin_*
 TOL_MARGIN = 2.0e6
 KAPPA_MAX = 1.0e4
+# conversions are normwise (not componentwise) accurate: entries far below the
+# largest entry of the result carry an absolute error of a few eps * max|ref|
+NORM_K = 1.0e3
+# "to rounding": a normalisation is one multiplication or division (1 eps)
+ROUNDING_K = 1.0e3
 FT_NAMES = {0: "AUTO", 1: "TS1", 2: "TS2", 3: "NPD"}
 TYPE_CODE = {"S": 1, "T": 2, "U": 3, "Z": 4, "Y": 5, "H": 6, "G": 7, "A": 8,
              "B": 9, "ZIN": 10}
@@ -77,7 +82,8 @@ def gen_z0(rng, n, F, want):
                   10 ** rng.uniform(-1, 3))
         return [complex(r)] * n, None
     if want == "unequal":
-        z = [complex(float(10 ** rng.uniform(-1, 3))) for _ in range(n)]
+        lo, hi = (-1, 3) if rng.random() < 0.2 else (1, 2.5)
+        z = [complex(float(10 ** rng.uniform(lo, hi))) for _ in range(n)]
         if n > 1 and z[0] == z[1]:
             z[1] = z[0] * 2
         return z, None
@@ -135,11 +141,35 @@ def rand_case_str(rng, s):
     return "".join(c.upper() if rng.random() < 0.5 else c.lower() for c in s)
 
 
-def gen_format(rng, kind, xtype, n, misuse):
+def gen_format_own(rng, kind, xtype, n):
+    """forms that need no matrix conversion (used with extreme magnitudes)"""
+    zin = xtype == "ZIN"
+    name = "Zin" if zin else xtype
+    coords = ["", "ri", "ma"] + ([] if zin or (kind == "npd" and xtype not in
+                                                 ("S", "T", "U")) else ["dB"])
+    pool = [name + c for c in coords] + [name + c for c in coords]
+    if not zin:
+        pool += [c for c in coords if c]
+    if kind != "npd":
+        return [pool[int(rng.integers(0, len(pool)))]]
+    if rng.random() < 0.06 and not zin:
+        return None
+    if xtype == "S":
+        pool += ["RL", "VSWR"] + (["IL", "IL"] if n >= 2 else [])
+    if zin:
+        pool += ["PRC", "PRL", "SRC", "SRL"]
+    k = int(wchoice(rng, [1, 2, 3, 4], [4, 3, 2, 1]))
+    return [pool[int(rng.integers(0, len(pool)))] for _ in range(k)]
+
+
+def gen_format(rng, kind, xtype, n, misuse, own_only=False):
     """list of spec strings (manual spelling) or None (set_format not called)"""
+    if own_only and not misuse:
+        return gen_format_own(rng, kind, xtype, n)
     coords_all = ["", "ri", "ma", "dB"]
     if kind in ("ts1", "ts2"):
-        if rng.random() < 0.08 and not misuse:
+        if rng.random() < 0.08 and not misuse and \
+                xtype in ("S", "Z", "Y", "H", "G"):
             return None
         letters = ["S", "Z", "Y"] + (["H", "G"] if n == 2 else [])
         if misuse:
@@ -265,10 +295,8 @@ def gen_case(rng, idx):
         n = int(wchoice(rng, [1, 2, 3, 4, 5, 6], [15, 28, 20, 15, 11, 11]))
     F = int(wchoice(rng, [1, 2, 3, 4], [2, 4, 3, 1]))
     if kind == "ts1":
-        zk = wchoice(rng, ["equal", "unequal", "complex", "perf"],
-                     [92, 3, 3, 2] if misuse or True else [1, 0, 0, 0])
-        if not misuse:
-            zk = "equal"
+        zk = "equal" if not misuse else wchoice(
+            rng, ["equal", "unequal", "complex", "perf"], [40, 20, 20, 20])
     elif kind == "ts2":
         zk = wchoice(rng, ["equal", "unequal", "complex", "perf"],
                      [45, 55, 0, 0] if not misuse else [30, 30, 20, 20])
@@ -282,8 +310,11 @@ def gen_case(rng, idx):
     c.fp = gen_precision(rng)
     c.dp = gen_precision(rng)
     c.ext, c.ft = choose_route(rng, kind, n, zk == "equal")
+    # extreme magnitudes go with forms of the object's own type: the accuracy
+    # of conversions at extreme magnitudes is the subject of C04/C05
     c.scale = 1.0
-    if rng.random() < 0.35:
+    if rng.random() < 0.35 and not misuse and (
+            kind == "npd" or xtype in ("S", "Z", "Y", "H", "G")):
         c.scale = float(10 ** rng.uniform(-12, 12))
     c.data = []
     for fi in range(F):
@@ -295,15 +326,14 @@ def gen_case(rng, idx):
     c.formats = None
     c.freqs = None
     for attempt in range(12):
-        fm = gen_format(rng, kind, xtype, n, misuse)
+        fm = gen_format(rng, kind, xtype, n, misuse, c.scale != 1.0)
         specs = resolve_specs(fm, xtype)
         needs_f = any(s.form in ("PRC", "PRL", "SRC", "SRL") for s in specs)
         fr = gen_freqs(rng, F, c.fp if c.fp is not None else 7, not needs_f)
         c.formats, c.freqs = fm, fr
         c.specs = specs
         c.truth_cache = {}
-        if misuse or all_defined(c, kind if kind != "ts1" or
-                                 (c.z0 and c.z0[0] != 1.0) else "ts1"):
+        if misuse or all_defined(c, kind):
             break
         if attempt >= 6:
             # fall back on forms of the object's own type
@@ -371,61 +401,99 @@ def _sens(fn, m):
     return ref, delta, kap
 
 
+def _from_s(P, s, z):
+    if P == "S":
+        return s
+    if P == "ZIN":
+        return NP.zin("S", s, z)
+    return NP.convert("S", P, s, z)
+
+
+def _wave_sens(P, s0, z):
+    """entrywise response of P(S) to a normwise-relative perturbation of the
+    scattering matrix: the error of any conversion that is backward stable in
+    the wave domain (libvna converts through S where no direct formula is
+    used); None when not finite"""
+    rng = np.random.default_rng(4242)
+    rel = 1e-8
+    y0 = np.asarray(_from_s(P, s0, z))
+    scale = max(1.0, float(np.max(np.abs(s0))))
+    d = np.zeros(y0.shape)
+    for _ in range(3):
+        e = rng.standard_normal(s0.shape) + 1j * rng.standard_normal(s0.shape)
+        y = np.asarray(_from_s(P, s0 + rel * scale * e, z))
+        d = np.maximum(d, np.abs(y - y0) / rel)
+    if not np.all(np.isfinite(d)):
+        return None
+    return d
+
+
+def _z0_spread(z):
+    """libvna solves with the unscaled matrices (Z + Z0 etc.): its error grows
+    with their row scaling, i.e. with the spread of the references"""
+    a = np.abs(z)
+    r = np.abs(np.real(z))
+    return float((np.max(a) / np.min(a)) * math.sqrt(np.max(r) / np.min(r)))
+
+
 def _truth(c, P, fi, ts1norm):
     X = c.xtype
     m = c.data[fi]
     z = z0_at(c, fi)
     n = c.n
+    rho = _z0_spread(z)
     with np.errstate(all="ignore"):
         if X == "ZIN":
             if P != "ZIN":
                 return None
             return m.reshape(-1), np.zeros(n), True
-        if P == "ZIN":
-            r = _sens(lambda x: NP.zin(X, x, z), m)
-            if r is None:
-                return None
-            ref, delta, kap = r
-            return ref, EPS * TOL_MARGIN * (np.abs(ref) + delta), False
         if P in TWO_PORT and n != 2:
             return None
-        if not ts1norm or P == "S" or X in ("T", "U"):
-            if P == X and not ts1norm:
-                return m, np.zeros((n, n)), True
-            if P == X and P == "S":
-                return m, np.zeros((n, n)), True
-            if ts1norm and X in ("T", "U") and P != "S":
-                # same numbers read against 1 ohm, then converted
-                one = np.ones(n, dtype=complex)
-                r = _sens(lambda x: NP.convert(X, P, x, one), m)
+        norm = ts1norm and P in ("Z", "Y", "H", "G")
+        if P == X and not norm:
+            return m, np.zeros((n, n)), True
+        try:
+            s0 = m if X == "S" else NP.convert(X, "S", m, z)
+        except np.linalg.LinAlgError:
+            return None
+        if not np.all(np.isfinite(s0)):
+            return None
+        if not norm:
+            if P == "ZIN":
+                r = _sens(lambda x: NP.zin(X, x, z), m)
             else:
                 r = _sens(lambda x: NP.convert(X, P, x, z), m)
             if r is None:
                 return None
             ref, delta, kap = r
-            return ref, EPS * TOL_MARGIN * (np.abs(ref) + delta), False
-        # Touchstone 1: Z/Y/H/G normalised to R = the network whose S matrix
-        # (at R) is read against 1 ohm
-        Rr = float(z[0].real)
-        one = np.ones(n, dtype=complex)
-        if X == "S":
-            s, kap1 = m, 0.0
-        else:
-            r1 = _sens(lambda x: NP.convert(X, "S", x, z), m)
-            if r1 is None:
+            try:
+                dw = _wave_sens(P, s0, z)
+            except np.linalg.LinAlgError:
                 return None
-            s, _, kap1 = r1
-        r2 = _sens(lambda x: NP.convert("S", P, x, one), s)
-        if r2 is None:
-            return None
-        _, delta2, kap2 = r2
+            if dw is None:
+                return None
+            tol = EPS * TOL_MARGIN * (np.abs(ref) + delta) + \
+                EPS * NORM_K * rho * (np.max(np.abs(ref)) + dw)
+            return ref, tol, False
+        # Touchstone 1: Z/Y/H/G divided / multiplied by R entry by entry
+        Rr = float(z[0].real)
         if X == P:
             ref = TS.ts_normalise(P, m, Rr)
-        else:
-            ref = TS.ts_normalise(P, NP.convert(X, P, m, z), Rr)
-        tol = EPS * TOL_MARGIN * (np.abs(ref) * (1 + kap1) +
-                                  delta2 * (1 + kap1))
-        return ref, tol, False
+            return ref, EPS * ROUNDING_K * np.abs(ref), False
+        r = _sens(lambda x: NP.convert(X, P, x, z), m)
+        if r is None:
+            return None
+        ref, delta, kap = r
+        try:
+            dw = _wave_sens(P, s0, z)
+        except np.linalg.LinAlgError:
+            return None
+        if dw is None:
+            return None
+        tol = EPS * TOL_MARGIN * (np.abs(ref) + delta) + \
+            EPS * NORM_K * rho * (np.max(np.abs(ref)) + dw)
+        return TS.ts_normalise(P, ref, Rr), \
+            np.abs(TS.ts_normalise(P, tol, Rr)), False
 
 
 def block_reference(c, sp, fi, ts1norm):
@@ -528,7 +596,7 @@ def all_defined(c, kind):
         if sp.param in TWO_PORT and c.n != 2:
             return False
         for fi in range(c.F):
-            r = block_reference(c, sp, fi, ts1norm and kind == "ts1")
+            r = block_reference(c, sp, fi, ts1norm)
             if r is None:
                 return False
             if expected_fields(sp, c.n, r[0], r[1], c.freqs[fi]) is None:
@@ -772,9 +840,8 @@ def judge_file(c, nm, data, allowed, fp, dp, viol, bump, mx, part):
              "file is %s, the manual maps name/filetype to %s" % (
                  fd.kind, sorted(allowed)))
         return None
-    for note in fd.notes:
-        viol("file-nonstandard", fd.kind + ":" + note.split(":")[0] + ":" +
-             note.split(":")[-1].split(" ")[0],
+    for slug, note in fd.notes:
+        viol("file-nonstandard", fd.kind + ":" + slug,
              "file deviates from the format: %s\n%s" % (
                  note, data[:400].decode("latin-1")))
     if fd.ports != c.n:
@@ -914,11 +981,11 @@ def judge_block(c, fd, sp, nums, ts1, dp, viol, bump, mx):
                         sp.form == "RI":
                     t = np.asarray(tol).reshape(-1)[k // 2]
                     if t > 0:
-                        mx("max_margin_converted",
-                           abs(num.v - x) / t * TOL_MARGIN)
+                        mx("max_converted_error_over_allowance",
+                           abs(num.v - x) / t)
             if msg:
-                viol("file-value", shape + (":normalised" if ts1norm and
-                                             sp.param != "S" else ""),
+                viol("file-value", ("%s:%s:normalised" % (fd.kind, sp.param))
+                     if ts1norm and sp.param != "S" else shape,
                      "frequency %d field %d of %s (%s%s): %s" % (
                          fi, k, label, "stored value" if direct else
                          "reference conversion from %s" % c.xtype,
@@ -1030,7 +1097,7 @@ def judge_load(c, res, fd, fp, dp, viol, bump, mx, part):
         sp = c.specs[0]
         form = fd.coord
         label = spec_label(sp)
-        normalised = fd.normalised and c.z0[0] != 0
+        normalised = fd.normalised
         worst = 0.0
         for fi in range(c.F):
             worst = max(worst, data_margin(loaded[fi], fd.values[fi], form,
@@ -1113,6 +1180,9 @@ def run_chunk(chunk_id, payload):
             part["harness_errors"].append("judge %s: %s" % (
                 cid, traceback.format_exc()[-1200:]))
     refused = part.pop("refused", [])
+    if os.environ.get("C06_DEBUG"):
+        for r_ in refused:
+            print("REFUSED", r_)
     if refused and len(part["samples"]) < 3:
         part["samples"].append(dict(refused_example=refused[0][:400]))
     return part
